@@ -23,7 +23,7 @@ class Obl:
     def __init__(self, name, props, grade, harness, roots=(), cfg='default', stop=(), specs=None, entry='harness',
                  enforce=None, replace=(), loop_contracts=False, unwind=None, unwindset=(), defines=(), solver='minisat',
                  timeout=300, tier='quick', extra_flags=(), src=None, includes=(), bound=None, note='', expect_fail=None,
-                 no_checks=False, contract_text=None, canary=True, object_bits=None, functions=None, globals=()):
+                 no_checks=False, contract_text=None, canary=True, object_bits=None, functions=None, globals=(), bufn=None, replay_fn=None, enums=()):
         self.name, self.props, self.grade, self.harness = name, list(props), grade, harness
         self.roots, self.cfg, self.stop = list(roots), cfg, list(stop)
         self.specs = dict(specs or {})
@@ -37,6 +37,9 @@ class Obl:
         self.canary = canary
         self.object_bits = object_bits
         self.globals = list(globals)
+        self.bufn = bufn
+        self.enums = list(enums)
+        self.replay_fn = replay_fn
         self.functions = functions  # names reported as "under contract" (default: roots)
 
     @property
@@ -54,16 +57,19 @@ def build_tu(o, canary=False):
     needed = list(o.roots) + list(o.stop)
     ex.prefetch([c for c in needed])
     gen_text, order = ex.compose(o.roots, stop=set(o.stop) | set(o.replace)) if o.roots else ('', [])
-    tables = tabdump.generate(o.cfg, set(ex.ctx.need_globals) | set(o.globals), ex.ctx.need_enums, o.src)
+    tables = tabdump.generate(o.cfg, set(ex.ctx.need_globals) | set(o.globals), set(ex.ctx.need_enums) | set(o.enums), o.src)
     parts = ['/* obligation %s (%s) */' % (o.name, o.cfg)]
     for d in o.defines:
         parts.append('#define ' + d.replace('=', ' ', 1))
     if o.loop_contracts:
         parts.append('#define USE_LOOP_CONTRACTS 1')
+    if o.bufn:
+        parts.append('#define BUF_N %d' % o.bufn)
     if canary:
         parts.append('#define CANARY 1')
     parts.append('#include "%s/model/base.h"' % VERIF)
-    parts.append('const char *g_p; const char *g_q; size_t g_k; size_t g_k2;')
+    parts.append('#include "%s/model/simd.h"' % VERIF)
+    parts.append('const char *g_p; const char *g_q; size_t g_k; size_t g_k2;\n#ifdef BUF_N\nchar g_buf[BUF_N], g_buf2[BUF_N];\n#endif')
     parts.append('#ifdef CANARY\n#define CANARY_POINT __CPROVER_assert(0, "canary: this point must be reachable")\n#else\n#define CANARY_POINT ((void)0)\n#endif')
     for inc in o.includes:
         parts.append('#include "%s/%s"' % (VERIF, inc))
@@ -131,7 +137,9 @@ def run_pipeline(o, path, trace=False, canary=False):
         gb = b_gb
     else:
         gb = a_gb
-    flags = [] if o.no_checks else list(CBMC_CHECKS)
+    flags = [] if (o.no_checks or canary) else list(CBMC_CHECKS)
+    if canary:
+        flags += ['--stop-on-fail']
     if o.unwind is not None:
         flags += ['--unwind', str(o.unwind), '--unwinding-assertions']
     for u in o.unwindset:
@@ -157,6 +165,15 @@ def run_pipeline(o, path, trace=False, canary=False):
     res = dict(cmd=cmd, secs=time.time() - t0, solver_secs=secs, rc=rc)
     if rc == -9:
         res.update(status='undecided', reason='cbmc timeout after %ds' % o.timeout)
+        return res
+    if canary:
+        # cheap reachability run: no standard checks, stop at the first refuted property; on a tree where the main
+        # run passed, the only refutable property is the canary assertion placed after the call
+        m = re.search(r'Violated property:.*?\n\s*(.*?)\n', out, re.S)
+        res['canary_fired'] = bool(m and 'canary' in m.group(1))
+        res['status'] = 'canary'
+        if not res['canary_fired']:
+            res['reason'] = 'canary not refuted: ' + out[-600:]
         return res
     props, verdict = parse_cbmc(out)
     res['props'] = props
